@@ -272,7 +272,9 @@ def run(run: Run) -> None:
         mutation_method=SimpleMutation(),
     )
     max_generations = ch.pick([3, 1, 6], "cfg", "max_generations")
+    driver = ch.pick(["D1", "D1", "D2"], "cfg", "driver") if cfg.get("d2", True) else "D1"
     stop_after = ch.pick([None, 1, 3, 10], "sched", "consumer-stops-after")
+    run.op("driver %s" % driver)
     run.op("spec: h=%d r=%d extra=%d generators=%s kinds=%s; settings pop=%d gens=%d nodes=%d mut=%.1f cx=%.1f elit=%.1f destr=%.1f stop_after=%s gen_fault_rate=%.2f" % (spec.h, spec.r, len(spec.extra_constraints), spec.gen_fields, [c["kind"] for c in spec.cons], pop, max_generations, settings["max_nodes"], settings["mutation_rate"], settings["crossover_rate"], settings["elitism_rate"], settings["destruction_rate"], stop_after, fault_rate))
     emitted = []
     emitted_snap = []
@@ -404,8 +406,14 @@ def run(run: Run) -> None:
 
         mu.mutate = mutate
 
-        # ---- drive: consume the solution generator lazily -----------------------------------
-        gen = f.generate_solutions(max_generations=max_generations)
+        # ---- driver D2: the harness schedules the operators itself ----------------------------------
+        if driver == "D2":
+            _drive_d2(run, mon, spec, text, strat, settings, emitted, emitted_snap, changed)
+            stop_after = 0  # no conservation claim in D2
+            gen = iter(())
+        else:
+            gen = f.generate_solutions(max_generations=max_generations)
+        # ---- driver D1: consume the solution generator lazily -----------------------------------
         try:
             for sol in gen:
                 run.probe("solution_emitted")
@@ -457,12 +465,117 @@ def run(run: Run) -> None:
             if lost:
                 run.probe("evaluator_yield_not_surfaced", len(lost))
     finally:
-        if gen is not None:
+        if gen is not None and hasattr(gen, "close"):
             gen.close()
         bridge.LEDGER = None
     run.info = {"h": spec.h, "r": spec.r, "evaluated": mon.evaluated, "emitted": len(emitted), "changed": dict(changed)}
     run.state((spec.h, spec.r, tuple(sorted({c["kind"] for c in spec.cons})), pop > 8, tuple(k for k, v in changed.items() if v), min(len(emitted), 3)))
     run.nontrivial = (len(emitted) > 0 or mon.evaluated >= 20) and sum(changed.values()) > 0
+
+
+def _drive_d2(run, mon, spec, text, strat, settings, emitted, emitted_snap, changed):
+    """D2: the decision stream picks the next operator -- generate, evaluate, repair, mutate,
+    crossover(i, j), re-evaluate an old tree, clear all memo tables (a legal no-op), emit -- so that
+    operator orders the fixed loop of the algorithm never produces are reached.  Every call goes
+    through the wrapped (observed) product functions, so all monitors apply; in addition every pool
+    member that is not the output of the current operator must stay unchanged."""
+    from fandango.errors import FandangoError
+    from fandango.evolution import GeneratorWithReturn
+
+    ch = run.ch
+    pm, ev = strat.population_manager, strat.evaluator
+    grammar = strat.grammar
+    pool: list = []
+    snaps: list = []
+    n_ops = ch.rng_range(6, 30, "sched", "d2-ops")
+    run.probe("d2_run")
+
+    def check_pool(op):
+        for i, (t, snap) in enumerate(zip(pool, snaps)):
+            if deriv.to_model(t) != snap:
+                mon.once("C10", "operator-modified-bystander", "pool-member-modified:" + op, "pool member %d was modified by %s although it was not its output" % (i, op))
+                snaps[i] = deriv.to_model(t)
+            be = bookkeeping_error(t)
+            if be:
+                mon.once("C10", "bookkeeping", "stale-bookkeeping:pool:" + op, "pool member %d inconsistent after %s: %s" % (i, op, be))
+
+    def add(t, op):
+        pool.append(t)
+        snaps.append(deriv.to_model(t))
+        if len(pool) > 12:
+            pool.pop(0)
+            snaps.pop(0)
+
+    for _ in range(n_ops):
+        op = ch.weighted([4, 4, 3, 3, 3, 2, 1, 2], "sched", "d2-op") if pool else 0
+        try:
+            if op == 0:
+                t = pm._generate_population_entry(settings["max_nodes"])
+                add(t, "generate")
+                run.op("D2 generate -> %r" % str(t)[:40])
+            elif op in (1, 5):
+                i = ch.draw(len(pool), "sched", "d2-i")
+                sols, res = GeneratorWithReturn(ev.evaluate_individual(pool[i])).collect()
+                for sol in sols:
+                    run.probe("solution_emitted")
+                    emitted.append(sol)
+                    emitted_snap.append((sol, deriv.to_model(sol)))
+                    accepts, _f, _p, raised = mon.independent(sol)
+                    if not accepts or not spec.harness_accepts(deriv.to_model(sol)):
+                        mon.once("C02", "emitted-solution-violates-constraint", "emitted:d2", "D2: evaluate_individual yielded %r which does not satisfy the constraints from scratch\nspec:\n%s" % (str(sol)[:160], text))
+                run.op("D2 evaluate #%d -> fitness %r, %d yielded" % (i, res[0], len(sols)))
+            elif op == 2:
+                i = ch.draw(len(pool), "sched", "d2-i")
+                _s, res = GeneratorWithReturn(ev.evaluate_individual(pool[i])).collect()
+                out, n = pm.fix_individual(pool[i], res[2])
+                add(out, "repair")
+                run.op("D2 repair #%d (%d fixes)" % (i, n))
+            elif op == 3:
+                i = ch.draw(len(pool), "sched", "d2-i")
+                try:  # the algorithm's own loop logs and drops a failing mutation
+                    _s, out = GeneratorWithReturn(settings["mutation_method"].mutate(pool[i], grammar, ev.evaluate_individual)).collect()
+                    if out is not pool[i]:
+                        add(out, "mutate")
+                    run.op("D2 mutate #%d" % i)
+                except Exception as e:
+                    if "injected generator failure" in str(e) or mon.ledger.fault_pending:
+                        raise
+                    run.op("D2 mutate #%d raised %s (dropped, as _perform_mutation does)" % (i, type(e).__name__))
+            elif op == 4 and len(pool) >= 2:
+                i, j = ch.draw(len(pool), "sched", "d2-i"), ch.draw(len(pool), "sched", "d2-j")
+                try:  # the algorithm's own loop logs and drops a failing crossover
+                    out = settings["crossover_method"].crossover(grammar, pool[i], pool[j])
+                    for c in out or ():
+                        add(c, "crossover")
+                    run.op("D2 crossover #%d x #%d" % (i, j))
+                except Exception as e:
+                    if "injected generator failure" in str(e) or mon.ledger.fault_pending:
+                        raise
+                    run.op("D2 crossover #%d x #%d raised %s (dropped, as _perform_crossover does)" % (i, j, type(e).__name__))
+            elif op == 6:
+                ev._fitness_cache.clear()
+                clear_constraint_caches(strat.constraints)
+                run.fault("memo_tables_cleared")
+                run.op("D2 clear all memo tables")
+            elif op == 7:
+                i = ch.draw(len(pool), "sched", "d2-i")
+                m = mon.check_derivation(pool[i], "d2-pool")
+                mon.check_generated_fields(pool[i], m, "d2-pool")
+        except FandangoError as e:
+            if not mon.ledger.fault_pending:
+                # e.g. "Missing converter" when a repair re-derives the sources of a generator with
+                # arguments: the real search would end here as well; not a generator fault of ours
+                run.op("D2 operator raised %s: %s; search ends" % (type(e).__name__, norm(str(e))[:80]))
+                break
+            _generator_fault_outcome(run, mon, mon.ledger, e, "d2")
+            break
+        except RuntimeError as e:
+            if "injected generator failure" in str(e):
+                _generator_fault_outcome(run, mon, mon.ledger, e, "d2")
+                break
+            raise
+        check_pool(["generate", "evaluate", "repair", "mutate", "crossover", "re-evaluate", "clear", "inspect"][op])
+    strat.population = list(pool)
 
 
 def _generator_fault_outcome(run, mon, ledger, e, where):
@@ -471,6 +584,10 @@ def _generator_fault_outcome(run, mon, ledger, e, where):
     if ledger.fault_pending:
         run._gen_fault_surfaced = True
         run.probe("generator_fault_surfaced")
+    elif type(e).__name__.startswith("Fandango"):
+        # one of the product's own errors without an injected fault (e.g. "Missing converter" when the
+        # sources of a generator with arguments are re-derived): the search ends, nothing to decide
+        run.probe("search_ended_with_fandango_error")
     else:
         raise e
 
